@@ -122,7 +122,18 @@ func init() {
 			return true
 		}}
 	}
-	L["fmt.Errorf"] = errFn("returns a non-nil error")
+	L["fmt.Errorf"] = LibModel{Doc: "returns a non-nil error; the format literal is remembered in the ghost errfmt", Fn: func(e *FuncEnc, in ssa.Instruction, av []ssa.Value, a []string, rts []types.Type, res ssa.Value) bool {
+		rs := e.freshResults("err", rts)
+		nonNilError(e, rs[0])
+		if lit, ok := constString(av[0]); ok {
+			e.D.UF("errfmt", []string{"Iface"}, "Str")
+			sym := e.D.Lit(lit)
+			e.ErrFormats[lit] = sym
+			e.assume("true", eq(sx("errfmt", rs[0]), sym))
+		}
+		e.setResult(res, rs)
+		return true
+	}}
 	L["errors.New"] = errFn("returns a non-nil error")
 	L["net/http.NotFoundHandler"] = LibModel{Doc: "returns a fixed non-nil handler", Fn: func(e *FuncEnc, in ssa.Instruction, av []ssa.Value, a []string, rts []types.Type, res ssa.Value) bool {
 		c := e.D.Const("http_NotFoundHandler", "Iface")
@@ -176,9 +187,41 @@ func init() {
 			return true
 		}}
 	}
-	for _, n := range []string{"strconv.ParseInt", "strconv.ParseUint", "strconv.ParseFloat", "strconv.ParseBool", "strconv.Atoi", "time.Parse"} {
+	for _, n := range []string{"strconv.ParseUint", "strconv.ParseFloat", "strconv.ParseBool", "strconv.Atoi", "time.Parse"} {
 		L[n] = parse("total deterministic function (value, err) of its arguments")
 	}
+	pi := parse("")
+	L["strconv.ParseInt"] = LibModel{Doc: "total deterministic function (value, err) of (s, base, bitSize); on success the value fits the bit size", Fn: func(e *FuncEnc, in ssa.Instruction, av []ssa.Value, a []string, rts []types.Type, res ssa.Value) bool {
+		pi.Fn(e, in, av, a, rts, res)
+		name := mangle("strconv.ParseInt")
+		f0, f1 := "lib_"+name+"_r0", "lib_"+name+"_r1"
+		for _, bs := range [][3]string{{"32", "(- 2147483648)", "2147483647"}, {"64", "(- 9223372036854775808)", "9223372036854775807"}, {"0", "(- 9223372036854775808)", "9223372036854775807"}, {"16", "(- 32768)", "32767"}, {"8", "(- 128)", "127"}} {
+			e.D.Axiom("parseint-range-"+bs[0], fmt.Sprintf("(forall ((s Str) (b Int)) (! (=> (= (if_tag (%s s b %s)) 0) (and (<= %s (%s s b %s)) (<= (%s s b %s) %s))) :pattern ((%s s b %s))))", f1, bs[0], bs[1], f0, bs[0], f0, bs[0], bs[2], f0, bs[0]))
+		}
+		return true
+	}}
+	L["(*net/url.URL).Query"] = LibModel{Doc: "deterministic; returns a non-nil map in which every present key has at least one value", Fn: func(e *FuncEnc, in ssa.Instruction, av []ssa.Value, a []string, rts []types.Type, res ssa.Value) bool {
+		f := e.D.UF("lib_"+mangle("(*net/url.URL).Query")+"_r0", []string{"Int"}, "Int")
+		e.D.Axiom("urlquery:nonnil", "(forall ((u Int)) (! (> ("+f+" u) 0) :pattern (("+f+" u))))")
+		e.setVal(res, "Int", sx(f, a[0]))
+		return true
+	}}
+	L["(net/http.Header).Values"] = pureUF("deterministic function of (header map, key)")
+	bodyFail := func(doc string, errIdx int) LibModel {
+		return LibModel{Doc: doc, Event: true, Fn: func(e *FuncEnc, in ssa.Instruction, av []ssa.Value, a []string, rts []types.Type, res ssa.Value) bool {
+			rs := e.freshResults("body", rts)
+			e.setResult(res, rs)
+			if errIdx < len(rs) {
+				e.BodyErrs = append(e.BodyErrs, and(e.curReach, not(eq(sx("if_tag", rs[errIdx]), "0"))))
+			}
+			for _, v := range av {
+				e.havocReachable(v)
+			}
+			return true
+		}}
+	}
+	L["(*encoding/json.Decoder).Decode"] = bodyFail("reads and decodes the body into the pointed value; may fail", 0)
+	L["io.ReadAll"] = bodyFail("reads the body; may fail", 1)
 }
 
 func pureUF(doc string) LibModel {
